@@ -428,7 +428,10 @@ def run(pid, P, a, seed, t0):
     if level != "proof":
         ev["coverage"]["explanation"] = (ev["coverage"]["explanation"] + " | NOT a proof-level run: "
                                          + "; ".join([f"{q}: {w}" for q, w in degraded] + [f"undecided: {o.name}" for o in undecided]))
-    json.dump(ev, open(os.path.join(VERIF, "evidence", f"{pid}.json"), "w"), indent=1)
+    # evidence describes /repo; a run against a scratch copy (PYVC_SRC_ROOT, used to evaluate seeded changes) must not replace it
+    ev_dir = os.path.join(VERIF, "evidence") if os.path.realpath(REPO_SRC) == "/repo/src" else os.path.join(VERIF, "out", "evidence_scratch")
+    os.makedirs(ev_dir, exist_ok=True)
+    json.dump(ev, open(os.path.join(ev_dir, f"{pid}.json"), "w"), indent=1)
 
     print(f"{pid}: functions={len(results)} obligations={len(real)} discharged={discharged} lemmas={len(lemma_obls)} "
           f"solver={solver_ms / 1000:.1f}s wall={time.time() - t0:.1f}s")
